@@ -36,7 +36,11 @@ func (cc *checkCtx) runOverlayTests(tests []overlayTest) *extraResult {
 		pkgDir := filepath.Join(cc.repo, ot.PkgRel)
 		dir := scratch()
 		ovFile := filepath.Join(dir, "ov_"+sanitize(ot.Name)+".json")
-		os.WriteFile(ovFile, mustJSON(map[string]any{"Replace": map[string]string{filepath.Join(pkgDir, "zz_gvc_extra_test.go"): src}}), 0o644)
+		repl := map[string]string{filepath.Join(pkgDir, "zz_gvc_extra_test.go"): src}
+		for k, v := range cc.goOverlay {
+			repl[k] = v
+		}
+		os.WriteFile(ovFile, mustJSON(map[string]any{"Replace": repl}), 0o644)
 		cmd := exec.Command("go", "test", "-overlay", ovFile, "-vet=off", "-count=1", "-timeout", "600s", "-run", ot.Run, "-v", ".")
 		cmd.Dir = pkgDir
 		cmd.Env = append(append(os.Environ(), "GOFLAGS=-mod=mod", "GOPROXY=off", "GOSUMDB=off", "GOTOOLCHAIN=local",
@@ -70,7 +74,7 @@ func (cc *checkCtx) runOverlayTests(tests []overlayTest) *extraResult {
 		}
 		list = append(list, entry)
 		if err != nil {
-			path := filepath.Join(cc.verifDir, "replays", fmt.Sprintf("%s-extra-%s.json", cc.prop, sanitize(ot.Name)))
+			path := filepath.Join(cc.replays, fmt.Sprintf("%s-extra-%s.json", cc.prop, sanitize(ot.Name)))
 			os.MkdirAll(filepath.Dir(path), 0o755)
 			os.WriteFile(path, mustJSON(map[string]any{"property": cc.prop, "obligation": "extra:" + ot.Name, "level": ot.Level, "bound": ot.Bound,
 				"how_to_replay": fmt.Sprintf("go test -overlay <{Replace: {%s/zz_gvc_extra_test.go: %s}}> -vet=off -run '%s' -v . (in %s)", pkgDir, src, ot.Run, pkgDir),
